@@ -1,27 +1,25 @@
 #!/usr/bin/env python3
-"""Collect evaluated seeded changes from /tmp/mut (sub-agent output) and /tmp/mx (try_mutant.sh
-results) into /verif/seeded/<id>/ and regenerate SEEDED.md."""
+"""Collect evaluated seeded changes into /verif/seeded/<id>/ and regenerate SEEDED.md.
+
+usage: collect_seeded.py [<agent output dir> <results dir> <result name prefix> <first number> <origin text>]
+
+  <agent output dir>/<Cxx>-out/<k>/{patch.diff,demo.rs,notes.md}   what the sub-agent wrote (k = 1, 2, ...)
+  <results dir>/<prefix><Cxx>-<k>/summary.txt                        what tools/try_mutant.sh reported
+
+Change k of property Cxx becomes seeded/<Cxx>-<first number + k - 1>/. Without arguments only
+SEEDED.md is regenerated from the meta.json files. A later evaluation of an already collected
+change (results dir only) updates its `checks_run`.
+"""
 import json, os, re, shutil, sys
 
-MUT, MX, OUT = "/tmp/mut", "/tmp/mx", "/verif/seeded"
+OUT = "/verif/seeded"
 props = {}
 for l in open("/verif/properties.jsonl"):
     p = json.loads(l)
     props[p["id"]] = p["title"]
-rows = []
-for name in sorted(os.listdir(MX)):
-    m = re.fullmatch(r"(C\d\d)-(\d)-out", name)
-    if not m:
-        continue
-    prop, n = m.group(1), m.group(2)
-    sid = f"{prop}-{n}"
-    summ = os.path.join(MX, name, "summary.txt")
-    src = os.path.join(MUT, f"{prop}-out", n)
-    if not os.path.exists(summ) or not os.path.exists(os.path.join(src, "patch.diff")):
-        continue
-    text = open(summ).read()
-    if "check " not in text:
-        continue
+
+
+def parse_summary(text):
     without = re.search(r"demo without change: exit (\d+)", text)
     with_ = re.search(r"demo with change: exit (\d+)", text)
     suite = re.search(r"pinned suite with change: exit (\d+) \((\d+) ok groups, (\d+) FAILED\)", text)
@@ -33,51 +31,106 @@ for name in sorted(os.listdir(MX)):
         ops = re.search(r"ops=(\d+)\(from (\d+)\)", v)
         checks[cm.group(1)] = {"exit": int(cm.group(2)), "violation_lines": int(cm.group(3)), "oracle": om.group(1) if om else None,
                                "oracle_property": opm.group(1) if opm else None, "minimised_ops": int(ops.group(1)) if ops else None}
-    confirmed = bool(without and with_ and suite and without.group(1) == "0" and with_.group(1) != "0" and suite.group(1) == "0" and suite.group(3) == "0")
-    d = os.path.join(OUT, sid)
-    os.makedirs(d, exist_ok=True)
-    for f in ("patch.diff", "demo.rs", "notes.md"):
-        if os.path.exists(os.path.join(src, f)):
-            shutil.copy(os.path.join(src, f), os.path.join(d, f))
-    notes = open(os.path.join(src, "notes.md")).read() if os.path.exists(os.path.join(src, "notes.md")) else ""
-    first = next((l.strip() for l in notes.splitlines() if l.strip() and not l.startswith("#")), "")
-    keep = {}
-    old_meta = os.path.join(d, "meta.json")
-    if os.path.exists(old_meta):
-        keep = json.load(open(old_meta))
-    meta = {
-        "id": sid,
-        "breaks_property": prop,
-        "property_title": props.get(prop),
-        "origin": {"1": "round 1: independent sub-agent given only the property text and a scratch worktree",
-                   "2": "round 1: independent sub-agent given only the property text and a scratch worktree",
-                   "3": "round 2: as round 1, additionally given one-line summaries of the round-1 changes for this property and asked to differ from them",
-                   "4": "round 2: as round 1, additionally given one-line summaries of the round-1 changes for this property and asked to differ from them",
-                   "5": "round 3 (adversarial): as round 1, additionally told in general terms what kind of randomized testing and schedule simulation exists and asked for changes such testing is likely to miss",
-                   "6": "round 3 (adversarial): as round 1, additionally told in general terms what kind of randomized testing and schedule simulation exists and asked for changes such testing is likely to miss"}.get(n, "sub-agent"),
-        "what": first[:400],
-        "needs_to_manifest": keep.get("needs_to_manifest", "see notes.md"),
-        "confirmed_by_me": {"pinned_suite_passes_with_change": bool(suite and suite.group(1) == "0" and suite.group(3) == "0"),
-                            "demo_passes_without_change": bool(without and without.group(1) == "0"),
-                            "demo_fails_with_change": bool(with_ and with_.group(1) != "0"),
-                            "how": "tools/try_mutant.sh on a scratch worktree of /repo HEAD (cargo test --offline; demo as tests/zz_demo.rs with the features named in notes.md)"},
-        "kept": confirmed,
-        "checks_run": checks,
-        "detected": any(c["exit"] == 1 for c in checks.values()),
-        "comment": keep.get("comment", ""),
-    }
-    json.dump(meta, open(old_meta, "w"), indent=1)
-    rows.append(meta)
+    return without, with_, suite, checks
 
-lines = ["# Seeded changes and which checks catch them", "",
-         "Each row is a change to Anders429/brood written by an independent sub-agent that saw only the property text.",
-         "`kept` = I confirmed on a scratch worktree that the pinned suite still passes with the change and that the demonstration",
-         "fails with it and passes without it. `quick checks` lists the exit status of each quick check run against the change",
-         "(1 = violation reported, 0 = not detected) with the oracle that fired and the size of the minimised replay.", "",
-         "| id | change | kept | quick checks | comment |", "|---|---|---|---|---|"]
-for m in rows:
-    cs = "; ".join(f"{p}: {'**caught**' if c['exit'] == 1 else ('missed' if c['exit'] == 0 else 'harness error')}"
-                   + (f" ({c['oracle']}, {c['oracle_property']}, {c['minimised_ops']} ops)" if c["exit"] == 1 else "") for p, c in m["checks_run"].items())
-    lines.append(f"| {m['id']} | {m['what'][:160].replace('|', '/')} | {'yes' if m['kept'] else 'no'} | {cs} | {m['comment']} |")
-open("/verif/SEEDED.md", "w").write("\n".join(lines) + "\n")
-print(f"{len(rows)} seeded changes collected; detected: {sum(1 for m in rows if m['detected'])}")
+
+def collect(agent_dir, results_dir, prefix, first, origin):
+    n_new = 0
+    for name in sorted(os.listdir(results_dir)):
+        m = re.fullmatch(re.escape(prefix) + r"(C\d\d)-(\d+)", name)
+        if not m:
+            continue
+        prop, k = m.group(1), int(m.group(2))
+        sid = f"{prop}-{first + k - 1}"
+        summ = os.path.join(results_dir, name, "summary.txt")
+        src = os.path.join(agent_dir, f"{prop}-out", str(k))
+        if not os.path.exists(summ) or not os.path.exists(os.path.join(src, "patch.diff")):
+            continue
+        text = open(summ).read()
+        if "check " not in text:
+            continue
+        without, with_, suite, checks = parse_summary(text)
+        confirmed = bool(without and with_ and suite and without.group(1) == "0" and with_.group(1) != "0" and suite.group(1) == "0" and suite.group(3) == "0")
+        d = os.path.join(OUT, sid)
+        os.makedirs(d, exist_ok=True)
+        for f in ("patch.diff", "demo.rs", "notes.md"):
+            if os.path.exists(os.path.join(src, f)):
+                shutil.copy(os.path.join(src, f), os.path.join(d, f))
+        notes = open(os.path.join(src, "notes.md")).read() if os.path.exists(os.path.join(src, "notes.md")) else ""
+        first_line = next((l.strip() for l in notes.splitlines() if l.strip() and not l.startswith("#")), "")
+        keep = {}
+        old_meta = os.path.join(d, "meta.json")
+        if os.path.exists(old_meta):
+            keep = json.load(open(old_meta))
+        merged = dict(keep.get("checks_run", {}))
+        merged.update(checks)
+        meta = {
+            "id": sid,
+            "breaks_property": prop,
+            "property_title": props.get(prop),
+            "origin": origin,
+            "what": first_line[:400],
+            "needs_to_manifest": keep.get("needs_to_manifest", "see notes.md"),
+            "confirmed_by_me": {"pinned_suite_passes_with_change": bool(suite and suite.group(1) == "0" and suite.group(3) == "0"),
+                                "demo_passes_without_change": bool(without and without.group(1) == "0"),
+                                "demo_fails_with_change": bool(with_ and with_.group(1) != "0"),
+                                "how": "tools/try_mutant.sh on a scratch worktree of /repo HEAD (cargo test --offline; demo as tests/zz_demo.rs with --features serde,rayon)"},
+            "kept": confirmed,
+            "checks_run": merged,
+            "detected": any(c["exit"] == 1 for c in merged.values()),
+            "comment": keep.get("comment", ""),
+        }
+        json.dump(meta, open(old_meta, "w"), indent=1)
+        n_new += 1
+    return n_new
+
+
+def update_existing(results_dir, prefix):
+    """Re-evaluation of already collected changes: <results dir>/<prefix><seeded id>/summary.txt."""
+    n = 0
+    for name in sorted(os.listdir(results_dir)):
+        m = re.fullmatch(re.escape(prefix) + r"(C\d\d-\d+)", name)
+        if not m:
+            continue
+        mp = os.path.join(OUT, m.group(1), "meta.json")
+        summ = os.path.join(results_dir, name, "summary.txt")
+        if not (os.path.exists(mp) and os.path.exists(summ)):
+            continue
+        meta = json.load(open(mp))
+        _, _, _, checks = parse_summary(open(summ).read())
+        if not checks:
+            continue
+        meta["checks_run"].update(checks)
+        meta["detected"] = any(c["exit"] == 1 for c in meta["checks_run"].values())
+        json.dump(meta, open(mp, "w"), indent=1)
+        n += 1
+    return n
+
+
+def regenerate():
+    rows = []
+    for sid in sorted(os.listdir(OUT)):
+        mp = os.path.join(OUT, sid, "meta.json")
+        if os.path.exists(mp):
+            rows.append(json.load(open(mp)))
+    lines = ["# Seeded changes and which checks catch them", "",
+             "Each row is a change to Anders429/brood written by a sub-agent (see `origin` in its meta.json for what the agent was given).",
+             "`kept` = I confirmed on a scratch worktree that the pinned suite still passes with the change and that the demonstration",
+             "fails with it and passes without it. `quick checks` lists the exit status of each quick check run against the change",
+             "(1 = violation reported, 0 = not detected) with the oracle that fired and the size of the minimised replay.", "",
+             "| id | change | kept | quick checks | comment |", "|---|---|---|---|---|"]
+    for m in rows:
+        cs = "; ".join(f"{p}: {'**caught**' if c['exit'] == 1 else ('missed' if c['exit'] == 0 else 'harness error')}"
+                       + (f" ({c['oracle']}, {c['oracle_property']}, {c['minimised_ops']} ops)" if c["exit"] == 1 else "") for p, c in m["checks_run"].items())
+        lines.append(f"| {m['id']} | {m['what'][:160].replace('|', '/')} | {'yes' if m['kept'] else 'no'} | {cs} | {m['comment']} |")
+    open("/verif/SEEDED.md", "w").write("\n".join(lines) + "\n")
+    print(f"{len(rows)} seeded changes; detected by at least one check: {sum(1 for m in rows if m['detected'])}")
+
+
+if __name__ == "__main__":
+    a = sys.argv[1:]
+    if len(a) == 5:
+        print("collected", collect(a[0], a[1], a[2], int(a[3]), a[4]))
+    elif len(a) == 3 and a[0] == "--update":
+        print("updated", update_existing(a[1], a[2]))
+    regenerate()
